@@ -83,30 +83,45 @@ Definition i_isOrExtends (E : env) (a b : iface) : bool := Nat.eqb b iroot || me
 Definition i_extends (E : env) (a b : iface) : bool := i_isOrExtends E a b && negb (Nat.eqb a b).
 
 (* ---- declarations of a class: Implements.declared and Implements.inherit (is not None) *)
-Record cdecl := mkCD { cd_declared : list iface; cd_inherit : bool }.
+(* [cd_specs]: other classes' specifications among the declared items
+   (``classImplements(C, implementedBy(B))``); the relative order of the two lists is not modelled *)
+Record cdecl := mkCD { cd_declared : list iface; cd_specs : list cls; cd_inherit : bool }.
 Definition decls := list (cls * cdecl).
 
 Definition decl_of (d : decls) (c : cls) : cdecl :=
-  match nget d c with Some x => x | None => mkCD [] true end.
+  match nget d c with Some x => x | None => mkCD [] [] true end.
 Definition declared (d : decls) (c : cls) : list iface := cd_declared (decl_of d c).
+Definition dspecs (d : decls) (c : cls) : list cls := cd_specs (decl_of d c).
 Definition inherit (d : decls) (c : cls) : bool := cd_inherit (decl_of d c).
 
 (* flattened content of implementedBy(c):
-     __bases__ = declared + (implementedBy(b) for b in c.__bases__ if inherit is not None) *)
+     __bases__ = declared + (implementedBy(b) for b in c.__bases__ if inherit is not None)
+   where a declared item is an interface or another class's specification *)
 Fixpoint flat_cls (E : env) (fuel : nat) (d : decls) (c : cls) : list iface :=
   iroot :: flat_map (ianc E) (declared d c) ++
   match fuel with
   | 0 => []
-  | S f => if inherit d c then flat_map (flat_cls E f d) (bases (e_cg E) c) else []
+  | S f => flat_map (flat_cls E f d) (dspecs d c) ++
+           (if inherit d c then flat_map (flat_cls E f d) (bases (e_cg E) c) else [])
   end.
 Definition cfuel (E : env) : nat := length (e_cg E).
 Definition flat (E : env) (d : decls) (c : cls) : list iface := flat_cls E (cfuel E) d c.
+
+(* the classes whose specifications are in the __sro__ of implementedBy(c) (c itself first) *)
+Fixpoint contrib_f (E : env) (fuel : nat) (d : decls) (c : cls) : list cls :=
+  c :: match fuel with
+       | 0 => []
+       | S f => flat_map (contrib_f E f d) (dspecs d c) ++
+                (if inherit d c then flat_map (contrib_f E f d) (bases (e_cg E) c) else [])
+       end.
+Definition contrib (E : env) (d : decls) (c : cls) : list cls := contrib_f E (cfuel E) d c.
 
 (* ---- the synthesized Implements of _implementedBy_super *)
 Record synth := mkSynth {
   sy_bases : list cls;          (* __bases__ = implementedBy(c) for these classes *)
   sy_inherit : bool;            (* copy of implemented_by_next.inherit (is not None) *)
-  sy_declared : list iface      (* copy of implemented_by_next.declared *)
+  sy_declared : list iface;     (* copy of implemented_by_next.declared: interfaces ... *)
+  sy_dspecs : list cls          (* ... and class specifications *)
 }.
 
 (* one registration of the (single) registry of a world *)
@@ -131,10 +146,10 @@ Definition flat_synth (E : env) (st : state) (s : nat) : list iface :=
    (``del self._super_cache``) and then the same on every dependent, depth first.  The
    dependents of implementedBy(c) that own a _super_cache are the specifications of the classes
    that list c in __bases__ and still inherit (an *only* class has dropped its class bases and
-   unsubscribed).  Synthesized super specifications are dependents too; their ``changed``
+   unsubscribed) and of the classes that declared implementedBy(c) itself.  Synthesized super specifications are dependents too; their ``changed``
    finds no cache to delete and their content is recomputed ([flat_synth] reads live state). *)
 Definition dependents (E : env) (d : decls) (c : cls) : list cls :=
-  filter (fun x => inherit d x && mem c (bases (e_cg E) x)) (map fst (e_cg E)).
+  filter (fun x => (inherit d x && mem c (bases (e_cg E) x)) || mem c (dspecs d x)) (map fst (e_cg E)).
 
 Fixpoint notified (E : env) (d : decls) (fuel : nat) (c : cls) : list cls :=
   c :: match fuel with
@@ -162,7 +177,8 @@ Definition set_decl (st : state) (c : cls) (x : cdecl) : state :=
 
 (* "if not spec.isOrExtends(x) or (x is Interface and not spec.declared)" *)
 Definition elide (E : env) (d : decls) (c : cls) (xs : list iface) : list iface :=
-  filter (fun x => negb (mem x (flat E d c)) || (Nat.eqb x iroot && is_nil (declared d c))) xs.
+  filter (fun x => negb (mem x (flat E d c))
+                   || (Nat.eqb x iroot && is_nil (declared d c) && is_nil (dspecs d c))) xs.
 
 (* spec.declared = before + declared + after without duplicates; spec.__bases__ = ... (which
    runs ``changed``) *)
@@ -170,7 +186,7 @@ Definition ordered (E : env) (st : state) (c : cls) (before after : list iface) 
   let d := st_decl st in
   let b := elide E d c before in
   let a := elide E d c after in
-  notify E (set_decl st c (mkCD (dedupe (b ++ declared d c ++ a) []) (inherit d c))) c.
+  notify E (set_decl st c (mkCD (dedupe (b ++ declared d c ++ a) []) (dspecs d c) (inherit d c))) c.
 
 (* classImplements: an interface extending something already declared goes in front *)
 Definition class_implements (E : env) (st : state) (c : cls) (ifs : list iface) : state :=
@@ -180,10 +196,22 @@ Definition class_implements (E : env) (st : state) (c : cls) (ifs : list iface) 
 
 (* classImplementsOnly: declared = (), inherit = None, __bases__ = () (changed), then ordered *)
 Definition class_implements_only (E : env) (st : state) (c : cls) (ifs : list iface) : state :=
-  ordered E (notify E (set_decl st c (mkCD [] false)) c) c ifs [].
+  ordered E (notify E (set_decl st c (mkCD [] [] false)) c) c ifs [].
 
 Definition class_implements_first (E : env) (st : state) (c : cls) (i : iface) : state :=
   ordered E st c [i] [].
+
+(* classImplements(c, implementedBy(b)): the specification of b becomes a declared item unless it
+   already is in the __sro__ of implementedBy(c) ("if not spec.isOrExtends(x)"); __bases__ is
+   assigned either way.  Only b created before c (and c a class of the world) is modelled: declaring
+   the specification of a subclass makes the specification graph cyclic, on which the real code
+   recurses without bound. *)
+Definition class_implements_spec (E : env) (st : state) (c b : cls) : state :=
+  let d := st_decl st in
+  if Nat.ltb b c && Nat.ltb c (cfuel E) then
+    let sp := if mem b (contrib E d c) then dspecs d c else dspecs d c ++ [b] in
+    notify E (set_decl st c (mkCD (declared d c) sp (inherit d c))) c
+  else st.
 
 (* ---- MRO and _next_super_class *)
 Definition mro_of (E : env) (T : cls) : option (list cls) :=
@@ -228,7 +256,7 @@ Definition implementedBy_super (E : env) (st : state) (T C : cls) : state * opti
               | Some ix =>
                   let keep := skipn ix mro in                    (* mro[ix_next_cls:] *)
                   let d := st_decl st in
-                  let new := mkSynth keep (inherit d nxt) (declared d nxt) in
+                  let new := mkSynth keep (inherit d nxt) (declared d nxt) (dspecs d nxt) in
                   let s := length (st_synth st) in
                   (mkSt d (st_synth st ++ [new]) (nset (st_cache st) T (nset cache C s)) (st_regs st),
                    Some s)
@@ -240,12 +268,15 @@ Definition implementedBy_super (E : env) (st : state) (T C : cls) : state * opti
 (* ---- arguments and results of providedBy / implementedBy *)
 Inductive arg :=
 | AObj (j : nat)                  (* the j-th instance *)
-| ASuper (C : cls) (j : nat).     (* super(C, j-th instance) *)
+| ASuper (C : cls) (j : nat)      (* super(C, j-th instance) *)
+| ASuperC (C : cls) (T : cls)     (* super(C, T), bound to the class T: __self_class__ = __self__ = T *)
+| AUnbound (C : cls).             (* super(C): __self_class__ = __self__ = None *)
 
 Inductive sref :=
 | RSynth (s : nat)                (* a synthesized super specification *)
 | RCls (c : cls)                  (* implementedBy(c) *)
-| RProv (j : nat).                (* the Provides of the j-th instance *)
+| RProv (j : nat)                 (* the Provides of the j-th instance *)
+| REmpty.                         (* the shared empty declaration ``_empty`` *)
 
 Definition obj_cls (E : env) (j : nat) : cls := fst (nth j (e_objs E) (cobject, [])).
 Definition obj_direct (E : env) (j : nat) : list iface := snd (nth j (e_objs E) (cobject, [])).
@@ -255,14 +286,19 @@ Definition obj_direct (E : env) (j : nat) : list iface := snd (nth j (e_objs E) 
 Definition py_implementedBy (E : env) (st : state) (a : arg) : state * option sref :=
   match a with
   | ASuper C j => let '(st', r) := implementedBy_super E st (obj_cls E j) C in (st', option_map RSynth r)
+  (* a class-bound proxy: sup.__self_class__ is the class itself, so the very same cache entry *)
+  | ASuperC C T => let '(st', r) := implementedBy_super E st T C in (st', option_map RSynth r)
+  (* an unbound proxy: implementedBy(None) is _empty, which has no _super_cache; the AttributeError
+     is caught by implementedBy's own handler, whose fallback path answers _empty *)
+  | AUnbound _ => (st, Some REmpty)
   | AObj _ => (st, None)
   end.
 
 (* C implementedBy: "if (PyObject_TypeCheck(cls, &PySuper_Type)) return implementedByFallback(cls)" *)
 Definition c_implementedBy (E : env) (st : state) (a : arg) : state * option sref :=
   match a with
-  | ASuper _ _ => py_implementedBy E st a
   | AObj _ => (st, None)
+  | _ => py_implementedBy E st a
   end.
 
 (* an instance: its own __provides__ when it has direct declarations, else its class's spec *)
@@ -272,16 +308,16 @@ Definition provided_by_instance (E : env) (j : nat) : sref :=
 (* Python providedBy: "if isinstance(ob, super): return implementedBy(ob)" *)
 Definition py_providedBy (E : env) (st : state) (a : arg) : state * option sref :=
   match a with
-  | ASuper _ _ => py_implementedBy E st a
   | AObj j => (st, Some (provided_by_instance E j))
+  | _ => py_implementedBy E st a
   end.
 
 (* C providedBy: "is_instance = PyObject_IsInstance(ob, &PySuper_Type); if (is_instance)
    return implementedBy(module, ob)" *)
 Definition c_providedBy (E : env) (st : state) (a : arg) : state * option sref :=
   match a with
-  | ASuper _ _ => c_implementedBy E st a
   | AObj j => (st, Some (provided_by_instance E j))
+  | _ => c_implementedBy E st a
   end.
 
 Definition implementedBy (uc : bool) := if uc then c_implementedBy else py_implementedBy.
@@ -292,13 +328,14 @@ Definition flat_ref (E : env) (st : state) (r : sref) : list iface :=
   | RSynth s => flat_synth E st s
   | RCls c => flat E (st_decl st) c
   | RProv j => iroot :: flat_map (ianc E) (obj_direct E j) ++ flat E (st_decl st) (obj_cls E j)
+  | REmpty => [iroot]
   end.
 
 (* ---- registry adaptation.  Specifications are numbers for Model/Lookup.v: *)
 Definition code_of (r : sref) : spec :=
-  match r with RSynth s => 3 * s | RCls c => 3 * c + 1 | RProv j => 3 * j + 2 end.
+  match r with RSynth s => 4 * s | RCls c => 4 * c + 1 | RProv j => 4 * j + 2 | REmpty => 3 end.
 Definition ref_of (n : spec) : sref :=
-  match n mod 3 with 0 => RSynth (n / 3) | 1 => RCls (n / 3) | _ => RProv (n / 3) end.
+  match n mod 4 with 0 => RSynth (n / 4) | 1 => RCls (n / 4) | 2 => RProv (n / 4) | _ => REmpty end.
 
 Fixpoint all_mem (xs : list iface) (fs : list (list iface)) : bool :=
   match xs, fs with
@@ -322,6 +359,10 @@ Definition call (v : value) (os : list nat) : option nat :=
   Some (vid v * 1000 + fold_left (fun c o => c * 10 + o mod 10) os 0).
 
 Definition proxy_id : nat := 9.      (* identity of any super proxy: never an instance number *)
+(* identities handed to factories: instances 0..2, the class object T is 2 + T, 9 = anything else
+   (a proxy, None) *)
+Definition cls_ident (T : cls) : nat := 2 + T.
+Definition none_ident : nat := 9.
 
 (* providedBy(o) for every object, left to right, as Model/Lookup.v objects *)
 Fixpoint objs_of (uc : bool) (E : env) (st : state) (args : list arg) : state * option (list obj) :=
@@ -333,6 +374,8 @@ Fixpoint objs_of (uc : bool) (E : env) (st : state) (args : list arg) : state * 
           let o := match a with
                    | AObj j => mkObj (code_of r) j None
                    | ASuper _ j => mkObj (code_of r) proxy_id (Some j)     (* __self__ = j *)
+                   | ASuperC _ T => mkObj (code_of r) proxy_id (Some (cls_ident T))   (* __self__ = T *)
+                   | AUnbound _ => mkObj (code_of r) proxy_id (Some none_ident)      (* __self__ = None *)
                    end in
           match objs_of uc E st1 rest with
           | (st2, Some os) => (st2, Some (o :: os))
@@ -364,13 +407,14 @@ Inductive op :=
 | OImplements (c : cls) (ifs : list iface)       (* classImplements(c, *ifs) *)
 | OOnly (c : cls) (ifs : list iface)             (* classImplementsOnly(c, *ifs) *)
 | OFirst (c : cls) (i : iface)                   (* classImplementsFirst(c, i) *)
+| OImplSpec (c b : cls)                          (* classImplements(c, implementedBy(b)) *)
 | OProvidedBy (a : arg)
 | OImplementedBy (a : arg)
 | ORegister (r : registration)                   (* registry.register(req, prov, name, factory) *)
 | OAdapt (v : via) (args : list arg) (p : iface) (n : name).
 
 (* an observation: 0 = exception; [1; kind; id] ++ content for a specification (kind 0 synth /
-   1 class / 2 provides; sorted content); [2] default; [3; r] an adapter result *)
+   1 class / 2 provides / 3 the empty declaration; sorted content); [2] default; [3; r] an adapter result *)
 Definition sort_set (n : nat) (l : list nat) : list nat := filter (fun i => mem i l) (seq 0 n).
 
 Definition n_ifaces (E : env) : nat := S (length (e_ig E)).
@@ -378,7 +422,7 @@ Definition n_ifaces (E : env) : nat := S (length (e_ig E)).
 Definition obs_ref (E : env) (st : state) (r : option sref) : list nat :=
   match r with
   | None => [0]
-  | Some x => [1; code_of x mod 3; code_of x / 3] ++ sort_set (n_ifaces E) (flat_ref E st x)
+  | Some x => [1; code_of x mod 4; code_of x / 4] ++ sort_set (n_ifaces E) (flat_ref E st x)
   end.
 
 Definition obs_res (r : option (res nat)) : list nat :=
@@ -394,6 +438,7 @@ Definition step (uc : bool) (E : env) (st : state) (o : op) : state * list nat :
   | OImplements c ifs => (class_implements E st c ifs, [])
   | OOnly c ifs => (class_implements_only E st c ifs, [])
   | OFirst c i => (class_implements_first E st c i, [])
+  | OImplSpec c b => (class_implements_spec E st c b, [])
   | OProvidedBy a => let '(st', r) := providedBy uc E st a in (st', obs_ref E st' r)
   | OImplementedBy a => let '(st', r) := implementedBy uc E st a in (st', obs_ref E st' r)
   | ORegister r => (mkSt (st_decl st) (st_synth st) (st_cache st) (st_regs st ++ [r]), [])
@@ -419,7 +464,7 @@ Definition answer_implementedBy (uc : bool) (E : env) (st : state) (a : arg) : o
 Definition clear_caches (st : state) : state := mkSt (st_decl st) (st_synth st) [] (st_regs st).
 
 Definition is_declaration (o : op) : bool :=
-  match o with OImplements _ _ | OOnly _ _ | OFirst _ _ => true | _ => false end.
+  match o with OImplements _ _ | OOnly _ _ | OFirst _ _ | OImplSpec _ _ => true | _ => false end.
 
 (* ---- well-formedness of a world, as a boolean: class 0 is ``object`` with no bases, every
    other class lists at least one base, bases come earlier (so the graph is acyclic; [rk] is
